@@ -22,18 +22,27 @@ import (
 // goes through simrt consults the stash first, so a stashed value behaves as
 // if it were still at the head of its channel.
 
+// stashed keeps the channel itself alive: the map is keyed by the channel's
+// address, which the allocator could hand to a new channel if the old one
+// were collected while one of its values is still stashed.
 type stashed struct {
-	v reflect.Value
+	ch   reflect.Value
+	vals []reflect.Value
 }
 
 func chanKey(c reflect.Value) uintptr { return c.Pointer() }
 
 func (s *Sim) stashPut(c reflect.Value, v reflect.Value) {
 	if s.stash == nil {
-		s.stash = map[uintptr][]stashed{}
+		s.stash = map[uintptr]*stashed{}
 	}
 	k := chanKey(c)
-	s.stash[k] = append(s.stash[k], stashed{v})
+	q := s.stash[k]
+	if q == nil {
+		q = &stashed{ch: c}
+		s.stash[k] = q
+	}
+	q.vals = append(q.vals, v)
 	s.stashN++
 }
 
@@ -43,17 +52,16 @@ func (s *Sim) stashTake(c reflect.Value) (reflect.Value, bool) {
 	}
 	k := chanKey(c)
 	q := s.stash[k]
-	if len(q) == 0 {
+	if q == nil || len(q.vals) == 0 {
 		return reflect.Value{}, false
 	}
-	v := q[0]
-	if len(q) == 1 {
+	v := q.vals[0]
+	q.vals = q.vals[1:]
+	if len(q.vals) == 0 {
 		delete(s.stash, k)
-	} else {
-		s.stash[k] = q[1:]
 	}
 	s.stashN--
-	return v.v, true
+	return v, true
 }
 
 func (s *Sim) stashDrop(c reflect.Value) {
@@ -61,8 +69,10 @@ func (s *Sim) stashDrop(c reflect.Value) {
 		return
 	}
 	k := chanKey(c)
-	s.stashN -= len(s.stash[k])
-	delete(s.stash, k)
+	if q := s.stash[k]; q != nil {
+		s.stashN -= len(q.vals)
+		delete(s.stash, k)
+	}
 }
 
 // TimerStop / TimerReset replace (*time.Timer).Stop/Reset in instrumented
@@ -208,10 +218,12 @@ func Select(site uint32, hasDefault bool, cases ...Case) (int, reflect.Value, bo
 	var idx int
 	var rv reflect.Value
 	var ok bool
-	Block(site, "select", func() { idx, rv, ok = reflect.Select(cs) })
+	timerWoken := block(site, "select", func() { idx, rv, ok = reflect.Select(cs) })
 	// Token held again. Tie detection: other receive cases that became ready
-	// at the same instant (see the stash comment above).
-	if cs[idx].Dir != reflect.SelectRecv || n == 1 {
+	// at the same instant (see the stash comment above). Only a wake-up by the
+	// fake clock can tie; a wake-up caused by another task's operation is
+	// ordered by that task's execution and is final.
+	if !timerWoken || cs[idx].Dir != reflect.SelectRecv || n == 1 {
 		return idx, rv, ok
 	}
 	type got struct {
